@@ -653,6 +653,7 @@ class CipherFile(Unit):
     functions = ('minecraft.networking.encryption.EncryptedFileObjectWrapper.read',
                  'minecraft.networking.encryption.EncryptedFileObjectWrapper.__init__')
     trusted = ('cipher context stream homomorphism',)
+    wall_budget_s = 30          # the wrapper is straight-line code; a loop in it has no contract and is reported undecided
 
     def run(self, I):
         E = I.E
@@ -745,13 +746,18 @@ def replay_cipher(rng=None):
     bad = None
     if sink.data != whole:
         bad = 'ciphertext depends on the split into send() calls'
-    f = encryption.EncryptedFileObjectWrapper(ChunkedFile(sink.data, rng.choice([1, 5, 64])), c2.decryptor())
+    f = encryption.EncryptedFileObjectWrapper(ChunkedFile(sink.data, rng.choice([1, 5, 64]), budget=2 * len(sink.data) + 1000), c2.decryptor())
     out = b''
-    while len(out) < len(data):
-        r = f.read(rng.randrange(1, 300))
-        if not r:
-            break
-        out += r
+    try:
+        while len(out) < len(data):
+            r = f.read(rng.randrange(1, 300))
+            if not r:
+                break
+            out += r
+        if f.read(7) != b'':
+            bad = bad or 'read at end of stream does not return b\'\''
+    except RuntimeError as e:
+        bad = bad or 'EncryptedFileObjectWrapper.read spins on a stream that has ended (%s)' % e
     if out != data:
         bad = bad or 'decrypted stream differs from the plaintext'
     return dict(confirmed=bad is not None, call='%d bytes through EncryptedSocketWrapper/EncryptedFileObjectWrapper' % len(data),
@@ -788,4 +794,7 @@ class WriteSwitch(Unit):
 
 
 def units(tier):
-    return [WriteFrame(), ReadFrame(), SizeCheck(), Segmentation(), CipherFile(), CipherSocket(), WriteSwitch()]
+    from . import c12
+    # "written to a connection" includes writes from several threads: frames stay contiguous only if every path to
+    # the wire holds the write lock (the same lock contracts as C12, claimed here for the merged/split clause)
+    return [WriteFrame(), ReadFrame(), SizeCheck(), Segmentation(), CipherFile(), CipherSocket(), WriteSwitch()] + c12.c01_units()
